@@ -206,6 +206,55 @@ pub fn check_lit(lit: &Lit, digits_opt: bool) -> CaseResult {
             ))
         }
     };
+    // the same literal after other tokens of one parse (tokens that leave
+    // bytes in the parser's scratch space: a sign-led symbol, a string with an
+    // escape, any symbol when reading from a stream) reads as it does alone
+    {
+        let q = if digits_opt { QOpt { digits: true, ..QOpt::default_set() } } else { QOpt::default_set() };
+        let alone: Result<MV, String> = match &got {
+            Got::UInt(u) => Ok(MV::U(*u)),
+            Got::NInt(i) => Ok(MV::I(*i)),
+            Got::Float(f) => Ok(MV::F(f.to_bits())),
+            Got::Err(e) => Err(e.clone()),
+            Got::Other(o) => Err(format!("other:{}", o)),
+        };
+        let contexts = [("(- {})", 1usize, false), ("(\"a\\n\" {})", 1, false), ("(-> {} +x {})", 1, false), ("(max \"s\" {})", 2, true), ("#(sym {})", 1, true)];
+        for (tpl, at, stream) in contexts {
+            let t2 = tpl.replace("{}", &text);
+            let r = catch(|| {
+                if stream {
+                    lexpr::from_reader_custom(std::io::Cursor::new(t2.as_bytes()), q.to_lexpr())
+                } else {
+                    lexpr::from_str_custom(&t2, q.to_lexpr())
+                }
+            });
+            let inner: Result<MV, String> = match r {
+                Err(pm) => Err(format!("panic: {}", pm)),
+                Ok(Err(e)) => Err(err_text(&e)),
+                Ok(Ok(v)) => {
+                    let m = MV::from_value(&v);
+                    let item = match &m {
+                        MV::List(xs, _) | MV::Vec(xs) => xs.get(at).cloned(),
+                        _ => None,
+                    };
+                    item.ok_or_else(|| "shape".to_string())
+                }
+            };
+            let same = match (&alone, &inner) {
+                (Ok(a), Ok(b)) => a == b,
+                (Err(a), Err(b)) => a == b || (a.starts_with("other:") && !b.is_empty()),
+                // alone the text may be something else than a number (a symbol under leading-digit symbols): skip
+                _ => matches!(&got, Got::Other(_)),
+            };
+            if !same {
+                return Err(Failure::new(
+                    format!("C05 in-context differs context={} {}", tpl.replace("{}", "N"), if stream { "src=reader" } else { "src=str" }),
+                    format!("{:?} alone reads as {} but inside {:?} as {}", clip(&text, 80), short(&alone), clip(&t2, 100), short(&inner)),
+                    case(),
+                ));
+            }
+        }
+    }
     let opt = if digits_opt { " opts=leading-digit-symbols" } else { "" };
     let mut classes: Vec<&'static str> = Vec::new();
     let verdict: Result<(), (String, String)> = match lit {
